@@ -33,7 +33,8 @@ RULE = ("cases = (question type, default text class, position in {top, group, re
         "triggered row judged; distinct = distinct (type, default class, position | trigger position pair | form signature)")
 ASSUMPTIONS = ["ambiguous default spellings (a-b, x[1], 1-1) are judged on exactly-once and placement only"]
 
-STATIC = ["hello", "hello world", "7", "2.5", "-3", "-0.5", "2020-01-31", "12:30:00", "2020-01-31T12:30:00", "yes", "a_b", "Ünïcode", "0"]
+STATIC = ["hello", "hello world", "7", "2.5", "-3", "-0.5", "2020-01-31", "12:30:00", "2020-01-31T12:30:00", "yes", "a_b", "Ünïcode", "0",
+          "-.5", ".25", "-.125", "5.", "-7.", "007", "1000000"]
 DYNAMIC = ["now()", "today()", "uuid()", "1 + 2", "3 * 4", "7 div 2", "7 mod 2", "concat('a', 'b')", "${src}", "${src} + 1", "if(${src} = '', 'x', 'y')",
            "once(random())", "'a' | 'b'", "string-length('abc')", "${last-saved#src}"]
 AMBIG = ["a-b", "1-1", "x[1]", "( x )", "a - b", "2020-01-31 extra", "jr://images/x.png"]
@@ -43,14 +44,14 @@ POSITIONS = ["top", "group", "repeat", "repeat/repeat", "group/repeat/group", "r
 
 def plan(tier, seed):
     return {"shards": 16, "timeout": 900 if tier == "quick" else 3600, "n_random": 900 if tier == "quick" else 14000,
-            "stride": 2 if tier == "quick" else 1,
+            "stride": 1,
             "floors": {"defaults_judged": 1500, "triggers_judged": 200, "dyn_hook_evals": 1000, "distinct": 300}}
 
 
 def classify(text, qtype):
     """'static' | 'dynamic' | None (ambiguous) — own reading of the documentation."""
     t = text.strip()
-    if re.fullmatch(r"-?\d+(\.\d+)?", t) or re.fullmatch(r"-?\d{4}-\d{2}-\d{2}", t) or re.fullmatch(r"\d{2}:\d{2}:\d{2}", t) or \
+    if re.fullmatch(r"-?(\d+(\.\d*)?|\.\d+)", t) or re.fullmatch(r"-?\d{4}-\d{2}-\d{2}", t) or re.fullmatch(r"\d{2}:\d{2}:\d{2}", t) or \
             re.fullmatch(r"\d{4}-\d{2}-\d{2}T\d{2}:\d{2}:\d{2}", t):
         return "static"
     if re.fullmatch(r"[^\W\d][\w]*( [^\W\d][\w]*)*", t, re.UNICODE):
@@ -274,15 +275,45 @@ def run_shard(ctx):
         rng = ctx.rng("random", i)
         form = gen.gen_form(rng, common.rich_cfg(rng, p_default=0.6, p_dyn_default=0.5, p_trigger=0.3, p_repeat=0.3, max_depth=5, p_or_other=0))
         judge(ctx, form, "random", common.feature_sig(form))
+    if ctx.shard == 0:
+        include_history(ctx)
     ctx.ctr("dyn_hook_evals", counters.get("dyn", 0))
     for msg in counters.get("dyn_violations", []):
         ctx.viol("hook:default_is_dynamic-disagrees-with-classifier", msg, {"klass": "hook"})
+
+
+def include_history(ctx):
+    """Triggered calculations in a survey assembled through 'include' rows (builder sections API): exactly one action each."""
+    from .. import apiseq
+    for i in range(40):
+        rng = ctx.rng("include", i)
+        sv, info = apiseq.include_survey(rng)
+        try:
+            p = xf.Parsed(sv.to_xml(validate=False, pretty_print=False))
+        except Exception as e:  # noqa: BLE001
+            ctx.viol(f"include:raised:{type(e).__name__}", str(e)[:300], {"klass": "include", "main_md": info["main_md"]})
+            continue
+        ctx.case(sig=f"include|{info['n_includes']}|{[t[0] for t in info['triggers']]}")
+        binds = {b.get("nodeset"): b for b in p.binds()}
+        for calc, trig, tag in info["triggers"]:
+            ctx.ctr("triggers_judged")
+            acts = [el for el in list(p.model.iter()) + list(p.body.iter()) if isinstance(el.tag, str) and xf.local(el.tag) in ("setvalue", "setgeopoint") and el.get("ref") == calc]
+            nested = [a for a in acts if a.getparent() is not None and a.getparent().get("ref") == trig and a.get("event") == "xforms-value-changed"]
+            if len(acts) != 1 or len(nested) != 1 or xf.local(acts[0].tag) != tag:
+                ctx.viol("include:trigger:not-exactly-one-action", f"{calc} (trigger {trig}, {info['n_includes']} include rows): {len(acts)} actions, {len(nested)} nested in the trigger's control, "
+                         f"tags {[xf.local(a.tag) for a in acts]}", {"klass": "include", "main_md": info["main_md"]})
+            b = binds.get(calc)
+            if b is not None and b.get("calculate") is not None:
+                ctx.viol("include:trigger:also-bind-calculate", f"{calc}: bind/@calculate={b.get('calculate')!r}", {"klass": "include", "main_md": info["main_md"]})
 
 
 def replay(w):
     def chk(ctx, wit):
         if wit.get("klass") == "hook":
             print("hook witness: re-run ./check C10")
+            return
+        if wit.get("klass") == "include":
+            include_history(ctx)
             return
         judge(ctx, common.form_from_witness(wit), wit.get("klass", "replay"), "replay")
     return common.replay_with(PROP, w, chk)
